@@ -62,6 +62,19 @@ func installLabelModels(in *Interp) {
 		if len(d) == 0 {
 			return BoolV{Known: true, B: true}, nil
 		}
+		// a comparison with a constant label (the zero label): a symbolic label can take
+		// that value — free-XOR outputs cancel to zero (XOR w w) — unless its form is known
+		// to be non-zero (S(r) = 1).  Both outcomes are explored.
+		if len(x) == 0 || len(y) == 0 {
+			if s := in.SOf(d); s.Known && s.B {
+				return BoolV{Known: true, B: false}, nil
+			}
+			sym := "iszero(" + d.Canon() + ")"
+			if v, ok := in.Assume[sym]; ok {
+				return BoolV{Known: true, B: v}, nil
+			}
+			return BoolV{Sym: sym}, nil
+		}
 		// distinct canonical forms over independent atoms are unequal in the
 		// generic model (r != 0 since S(r)=1).
 		return BoolV{Known: true, B: false}, nil
